@@ -130,8 +130,15 @@ func (s *SubRing) generateNTTConstants() (err error) {
 
 	logNthRoot := int(bits.Len64(NthRoot>>1) - 1)
 
-	// 1.1 Computes N^(-1) mod Q in Montgomery form
-	s.NInv = MForm(ModExp(NthRoot>>1, Modulus-2, Modulus), Modulus, s.BRedConstant)
+	// 1.1 Computes N^(-1) mod Q ((2N)^(-1) for the conjugate-invariant transform) in Montgomery form.
+	// The normalisation of the inverse transform is given by the number of coefficients, not by the
+	// order of the root (the two agree for the canonical orders 2N and 4N).
+	/* #nosec G115 -- N cannot be negative */
+	nInv := uint64(s.N)
+	if s.Type() == ConjugateInvariant {
+		nInv <<= 1
+	}
+	s.NInv = MForm(ModExp(nInv, Modulus-2, Modulus), Modulus, s.BRedConstant)
 
 	// 1.2 Computes Psi and PsiInv in Montgomery form
 
